@@ -297,7 +297,28 @@ var alnum = []rune("0123456789ABCDEFGHIJKLMNOPQRSTUVWXYZabcdefghijklmnopqrstuvwx
 
 func genStr() *rapid.Generator[strCase] {
 	return rapid.Custom(func(t *rapid.T) strCase {
-		switch rapid.IntRange(0, 5).Draw(t, "kind") {
+		switch rapid.IntRange(0, 6).Draw(t, "kind") {
+		case 6: // spellings of 16-byte identifiers in other conventions: hex, UUID forms
+			hexd := []rune("0123456789abcdefABCDEF")
+			n := rapid.SampledFrom([]int{16, 21, 22, 23, 31, 32, 33}).Draw(t, "hexlen")
+			rs := rapid.SliceOfN(rapid.SampledFrom(hexd), n, n).Draw(t, "hex")
+			if rapid.IntRange(0, 3).Draw(t, "allf") == 0 {
+				for i := range rs {
+					rs[i] = 'f'
+				}
+			}
+			h := string(rs)
+			switch rapid.IntRange(0, 3).Draw(t, "uuidform") {
+			case 1:
+				if n == 32 {
+					h = h[:8] + "-" + h[8:12] + "-" + h[12:16] + "-" + h[16:20] + "-" + h[20:]
+				}
+			case 2:
+				h = "urn:uuid:" + h
+			case 3:
+				h = "{" + h + "}"
+			}
+			return strCase{S: h}
 		case 0: // any runes any length
 			return strCase{S: rapid.String().Draw(t, "s")}
 		case 1: // arbitrary bytes (may be invalid UTF-8)
